@@ -156,6 +156,10 @@ def build_case(seed: int, stream: int) -> dict:
         opts = make_opts(rng)
         if stream % 7 == 5 and idx == 0:
             opts.max_ns_depth, opts.multi_id_ns = 3, 0.6
+        if stream % 6 == 4 and idx < 2:
+            # two documents nested far deeper than the others: 33 and 40, 17 and 70 levels
+            opts.chain_depth = [[33, 40], [17, 70], [34, 31]][(stream // 6) % 3][idx]
+            opts.max_ns_depth, opts.noise = 1, 0.0
         gen = ModelGen(rng, opts).generate()
         first_model = first_model or gen.model
         docs.append(M.to_json(gen.model, decorate=rng.random() < 0.3, rng=rng))
@@ -196,6 +200,12 @@ def build_case(seed: int, stream: int) -> dict:
         ops += [['load', slot, 0], ['process', slot], ['load', slot, empty], ['process', slot],
                 ['new', slot, 1, 'bytes'], ['process', slot], ['load', slot, empty],
                 ['process', slot]]
+    if stream % 6 == 4:
+        # and for certain: the deep documents parsed again and again by one instance, and the
+        # shallower one after the deeper one
+        ops += [['new', 0, 0, 'str'], ['process', 0], ['process', 0], ['process', 0],
+                ['load', 0, 1], ['process', 0], ['load', 0, 0], ['process', 0],
+                ['load', 0, len(docs) - 1], ['process', 0]]
     if twin is not None:
         # and for certain: both spellings parsed in one process, in both orders
         ops += [['new', 0, 0, 'str'], ['process', 0], ['new', 1, twin, 'bytes'], ['process', 1],
